@@ -57,6 +57,7 @@ export type Action =
   | 'custom'
   | 'clear'
   | 'clear_parent'
+  | 'take_max'
   | 'either';
 
 function validateAction(action: string): Action {
@@ -70,6 +71,7 @@ function validateAction(action: string): Action {
       'custom',
       'clear',
       'clear_parent',
+      'take_max',
       'either',
     ])
   ) {
@@ -503,6 +505,44 @@ function resolveAction(base: any, decision: MergeDecision): IDiffEntry[] {
     } else {
       return [];
     }
+  } else if (a === 'take_max') {
+    // Both sides changed the value at one key (e.g. nbformat_minor):
+    // the largest of the base, local and remote values wins
+    let key: string | null = null;
+    for (let d of _combineDiffs(
+      decision.localDiff,
+      decision.remoteDiff,
+    ) as IDiffObjectEntry[]) {
+      if (key !== null && key !== d.key) {
+        throw new Error('Cannot combine diffs with different keys');
+      }
+      key = d.key;
+    }
+    if (key === null) {
+      return [];
+    }
+    let bval = base[key];
+    let lval =
+      decision.localDiff && decision.localDiff.length > 0
+        ? (decision.localDiff[0] as any).value
+        : bval;
+    let rval =
+      decision.remoteDiff && decision.remoteDiff.length > 0
+        ? (decision.remoteDiff[0] as any).value
+        : bval;
+    let mval = bval;
+    if (lval > mval) {
+      mval = lval;
+    }
+    if (rval > mval) {
+      mval = rval;
+    }
+    if (mval === bval) {
+      return [];
+    }
+    let d = opReplace(key, mval);
+    d.source = { decision, action: 'custom' };
+    return [d];
   } else if (a === 'clear_parent') {
     if (Array.isArray(base)) {
       let d = opRemoveRange(0, base.length);
